@@ -64,7 +64,7 @@ def replay(case):
         results.append(r)
     scale = rel.finalize(results)
     strip = lambda res: {k: v for k, v in res.items() if k in ("ok", "err", "t")}
-    msgs = {o["label"]: o["res"].get("msg", "")[:120] for o in obs if not o["res"]["ok"]}
+    msgs = {o["label"]: (o["res"].get("err", "") + ": " + o["res"].get("msg", ""))[:160] for o in obs if not o["res"]["ok"]}
     return {"tid": case["tid"], "kind": "query", "q": q, "sc": sc, "scale": scale, "refusals": False, "ref": strip(ref),
             "obs": [dict(o, res=strip(o["res"])) for o in obs], "msgs": msgs}
 
